@@ -17,6 +17,8 @@ func init() {
 }
 
 func runC15(ctx *core.Ctx) {
+	parseFileRaw(ctx, "X12")
+	fixNLShape(ctx, "X11")
 	c15Round5(ctx)
 	ctx.Trusted = append(ctx.Trusted, "go/types, go/ssa", "semantics of filepath.Clean/Join/IsAbs/IsLocal and of os.OpenFile flags (O_EXCL|O_CREATE never opens an existing file)")
 	ctx.Rule("X1", "guard completeness in txtar.Write: every file-system call that creates something (os.MkdirAll, os.OpenFile, os.Create, os.WriteFile) takes a path derived from filepath.Join(dir, p) with p = filepath.Clean(filepath.FromSlash(entry name)), and is reached only when p is known not absolute, not equal to \"..\" and not prefixed by \"..\"+separator (or filepath.IsLocal(p) is known true)", 2)
